@@ -1,5 +1,7 @@
 #!/bin/bash
 # Runs every check registered in MANIFEST.json (tier $1, default quick) and prints exit codes.
+# A copy of each evidence file is kept under coverage/<tier>/ (DESIGN.md section 10 is generated
+# from those copies by gen_design_tables.py).
 cd /verif || exit 2
 tier="${1:-quick}"
 ./run.sh build || exit 2
@@ -8,6 +10,7 @@ for id in $(python3 -c "import json;print(' '.join(c['property_id'] for c in jso
   s=$(date +%s.%N)
   out=$(./run.sh "$id" "$tier" 2>&1); code=$?
   e=$(date +%s.%N)
+  mkdir -p "coverage/$tier"; cp "evidence/$id.json" "coverage/$tier/$id.json" 2>/dev/null
   printf "%s exit=%d %.1fs %s\n" "$id" "$code" "$(echo "$e - $s" | bc)" "$(echo "$out" | grep -c '^KNOWN-FINDING') known"
   [ $code -ne 0 ] && { rc=1; echo "$out" | grep -m3 "signature\|MACHINERY"; }
 done
